@@ -196,15 +196,19 @@ def command_trace(tid, rng, root: Path, seed):
     SO.save = GR.save = BS.save = fake_save
     SO.evaluate, GR.get_greedy_rewards, BS.get_best_exploitability = cap(real_eval, "eval"), cap(real_greedy, "greedy"), cap(real_best, "best")
     try:
-        for j in range(4):
-            cmd = ["solve", "greedy", "best_states", "solve"][j]
-            name = f"{cmd}{j}" if j < 3 else "solve0"          # the last one repeats a name
+        for j in range(5):
+            cmd = ["solve", "greedy", "best_states", "solve", "best_states"][j]
+            name = f"{cmd}{j}" if j != 3 else "solve0"          # the fourth one repeats a name
             gen = rng.choice(["factory", "noisy_factory", "graph_random", "xos"])
+            if j == 4:
+                gen = rng.choice(["noisy_factory", "xos"])       # every sampled game different: the order of the columns is visible
             cls = "superadditive" if not gen.startswith("xos") else rng.choice(["superadditive", "sam_apx_1"])
             inst = ModelInstance(number_of_players=3, game_class=cls, game_generator=gen, gap_function=rng.choice(["exploitability", "l1_norm", "l2_norm"]),
                                  run_steps_limit=rng.randint(1, 4 if cmd == "best_states" else 3), model_dir=root, unique_name=name, seed=seed + j, parallel_environments=1)
             ns = Namespace(func=print, solver=rng.choice(["greedy", "largest", "random"]), solve_repetitions=rng.randint(1, 4),
                            sampling_repetitions=rng.randint(1, 3), eval_repetitions=rng.randint(1, 2), model_dir=root, unique_name=name, seed=seed + j)
+            if j == 4:     # several evaluation repetitions of several sampled games each (seed C19-e: columns interleaved)
+                ns.sampling_repetitions, ns.eval_repetitions = rng.randint(2, 3), rng.randint(2, 3)
             captured.clear()
             exc = ""
             try:
@@ -224,6 +228,12 @@ def command_trace(tid, rng, root: Path, seed):
                 else:
                     stacked = np.hstack([r[0] for r in captured["best"]])
                     produced_same = int(np.array_equal(out.data, stacked, equal_nan=True))
+                    acts = np.asarray(out.actions, dtype=np.float64)        # [size, evaluation repetition, position] = coalition id, NaN padded
+                    for rep_i, r in enumerate(captured["best"]):
+                        for size_i, coal in enumerate(r[1]):
+                            row = acts[size_i, rep_i] if acts.ndim == 3 and size_i < acts.shape[0] and rep_i < acts.shape[1] else None
+                            if row is None or [float(x) for x in coal] != [float(x) for x in row[:len(coal)]] or not np.all(np.isnan(row[len(coal):])):
+                                produced_same = 0
                 if name not in metas:
                     metas[name] = expected_meta(out.parsed_args)
                 ds, df = tk.mat(out.data)
